@@ -21,6 +21,7 @@ import (
 	"verifharness/hx"
 
 	"github.com/evstack/ev-node/block"
+	coresequencer "github.com/evstack/ev-node/core/sequencer"
 	"github.com/evstack/ev-node/pkg/config"
 	genesispkg "github.com/evstack/ev-node/pkg/genesis"
 	"github.com/evstack/ev-node/pkg/signer"
@@ -58,6 +59,7 @@ type Env struct {
 	Root    string
 	Cfg     config.Config
 	Options Options
+	RealSeq coresequencer.Sequencer
 }
 
 type Options struct {
@@ -76,6 +78,8 @@ type Options struct {
 	Exec          *hx.Exec
 	Seq           *hx.Seq
 	KeySeed       byte // signing key of an aggregator (default 1)
+	// MakeSeq builds the sequencing layer on the node's datastore (default: the scripted double)
+	MakeSeq func(ds *hx.LogDS) (coresequencer.Sequencer, error)
 }
 
 func WorkDir() string {
@@ -146,7 +150,16 @@ func New(o Options) (*Env, error) {
 		cfg.Node.LazyBlockInterval.Duration = o.LazyInterval
 	}
 	e.Cfg = cfg
-	m, err := block.NewManager(context.Background(), sg, cfg, e.Gen, e.Store, e.Exec, e.Seq, e.DA, logging.Logger("verif"), nil, nil,
+	var sq coresequencer.Sequencer = e.Seq
+	if o.MakeSeq != nil {
+		rs, err := o.MakeSeq(e.DS)
+		if err != nil {
+			return e, err
+		}
+		sq = rs
+		e.RealSeq = rs
+	}
+	m, err := block.NewManager(context.Background(), sg, cfg, e.Gen, e.Store, e.Exec, sq, e.DA, logging.Logger("verif"), nil, nil,
 		e.HB, e.DB, block.NopMetrics(), -1, 0, block.DefaultManagerOptions())
 	if err != nil {
 		return e, err
